@@ -68,9 +68,13 @@ Fmt ==
   [o \in {"jc"} |-> FO] @@
   [o \in {"jgt0f", "jz", "ro2r"} |-> FRRom] @@
   [o \in {"m2r", "r2m"} |-> FRRam] @@
-  [o \in {"rset"} |-> <<"reg", "imm">>]
+  [o \in {"rset"} |-> <<"reg", "imm">>] @@
+  \* the dynamically named family rsets<k>: a register and an immediate of exactly k bits
+  [o \in {"rsets" \o ToString(k) : k \in 1 .. 32} |->
+     <<"reg", "imm" \o ToString(CHOOSE k \in 1 .. 32 : o = "rsets" \o ToString(k))>>]
 
 KnownOps == DOMAIN Fmt
+ImmK == [kind \in {"imm" \o ToString(k) : k \in 1 .. 32} |-> CHOOSE k \in 1 .. 32 : kind = "imm" \o ToString(k)]
 
 LocBits(a) == IF a.mode = "ha" THEN a.O ELSE IF a.mode = "vn" THEN a.L ELSE (IF a.O > a.L THEN a.O ELSE a.L)
 
@@ -82,6 +86,7 @@ Width(a, kind) ==
     [] kind = "ram" -> a.L
     [] kind = "imm" -> a.rsize
     [] kind = "loc" -> LocBits(a)
+    [] OTHER -> ImmK[kind]
 
 \* an operand fits iff it is below Limit
 Limit(a, kind) ==
@@ -92,6 +97,7 @@ Limit(a, kind) ==
     [] kind = "ram" -> Pow2(a.L)
     [] kind = "imm" -> Pow2(a.rsize)
     [] kind = "loc" -> Pow2(LocBits(a))
+    [] OTHER -> Pow2(ImmK[kind])
 
 RECURSIVE SumW(_, _, _)
 SumW(a, f, i) == IF i > Len(f) THEN 0 ELSE Width(a, f[i]) + SumW(a, f, i + 1)
